@@ -187,6 +187,17 @@ def oracle(op, out):
                        or (b[0] == 2 and len(b) == 1))
         if must_reject != (out == Exc(2)):
             return "parse_node InvalidNode exactly for empty / unknown type byte / impossible length is violated"
+    elif k == "CNodeType" and not isinstance(out, Exc):
+        # the four classification predicates agree with get_node_type: exactly one holds
+        node = unfreeze(op[1])
+        got = []
+        for f in (ND.is_blank_node, ND.is_leaf_node, ND.is_extension_node, ND.is_branch_node):
+            try:
+                got.append(bool(f(node)))
+            except Exception as e:
+                got.append(type(e).__name__)
+        if got != [out == t for t in (0, 1, 2, 3)]:
+            return f"is_blank/leaf/extension/branch_node = {got} disagree with get_node_type = {out}"
     elif k == "CLeafKey" and all(0 <= n < 16 for n in op[1]):
         if ND.get_node_type([out, b"v"]) != 1 or list(ND.extract_key([out, b"v"])) != list(op[1]):
             return "a leaf does not classify / yield its key path"
@@ -265,6 +276,8 @@ def gen_cases(rng, tier):
         ops.append(("CExtractKey", [compute_extension_key(ns), b"h" * 32]))
     ops.append(("CNodeType", b""))
     ops.append(("CNodeType", [b""] * 17))
+    ops.append(("CNodeType", [b"\x07" * 32] * 2 + [b""] * 14 + [b"branch value"]))
+    ops.append(("CNodeType", [[b"\x20", b"v"]] + [b""] * 15 + [b""]))
     ops.append(("CNodeType", [b""] * 3))
     ops.append(("CNodeType", [b"", b"x"]))
     for it in ([b"\x20", b"v"], [[b"\x20", b"v"], b""], b"\x7f", b"\x80", b"a" * 55, b"a" * 56, b"a" * 300,
